@@ -15,6 +15,10 @@ CLAIMED = {
    text="SendBuf.tla (per-byte colour map) is model-checked exhaustively for small constants; every input sequence TLC enumerates to a fixed depth plus seeded random walks is executed on the real SendBuf and the recorded trace (call, result, full colour map via the verif hook) is validated step by step by TLC against the same specification.",
    note="TLC, JSON trace I/O, the read-only colour dump hook; byte values are compared by the harness; ack/loss ranges are previously picked ranges.",
    ref="DESIGN.md §4 C09"),
+ "C10": dict(
+   text="RcvdJournal.tla (records Empty/Received/AckSent/Confirmed, ACK frame geometry and sizes, rotation) and SentJournal.tla (assembly = one critical section, rotate sessions, ack/loss -> frames, expiry) are model-checked; every call sequence TLC enumerates to a fixed depth plus seeded random histories (up to ~130 ACK ranges, capacities swept around exact sizes) is executed on the real journals under paused time, every recorded step is validated by TLC: generated ACKs only cover received numbers, carry the requested largest, fit, are complete whenever the complete frame fits; numbers are accepted once; acks yield exactly the recorded frames once.",
+   note="TLC, JSON trace I/O, tokio paused clock; gen_ack is asked for a tracked received `largest`; assemblies abandoned only before a frame was recorded.",
+   ref="DESIGN.md §4 C10"),
 }
 NOT_YET = "check under construction in this round (see DESIGN.md plan); not claimed yet"
 NA = {}
